@@ -24,7 +24,7 @@ from cnvlib.cnary import CopyNumArray as CNA  # noqa: E402
 from scipy import stats as sps  # noqa: E402  (Student t tail only: trusted third-party numerics, DESIGN 4.5)
 
 ID = "C17"
-BUDGET = {"quick": 900, "thorough": 5400}
+BUDGET = {"quick": 1800, "thorough": 7200}  # per-shard caps; generous because the machine is shared (quick needs ~75 s, thorough ~15 min of CPU per shard at 16 shards)
 CASE_TIMEOUT = 900
 
 TOL = 1e-9  # arithmetic identities
@@ -76,7 +76,7 @@ def describe(tier):
         "assignment) x geometry; without a null bin and with the null-coverage bin at every bin position x skip_low on/off, both row "
         "indexes for the plain call. subsets: every subset and every ordered pair of the spread statistics, each location / interval "
         "statistic alone, nothing requested. intervals: every focus multiset x weight pattern x alpha x bootstraps x smoothed, each run "
-        "twice under different global RNG states. long: deterministic long words x mode x weights x {default, smoothed, skip_low with a "
+        "twice under different global RNG states and (bootstraps = 10) once more with other log2 values and weights in the neighbouring segments. long: deterministic long words x mode x weights x {default, smoothed, skip_low with a "
         "null bin}. bintest: every layout x 7 (geometry, weight pattern, segment-log2 mode) combinations with all bins on target, a "
         "null-coverage bin, 3 gene patterns x target_only on/off, a non-default row index; alpha in the fixed list, 0.999, and every "
         "adjusted p-value reported at 0.999. "
